@@ -16,7 +16,7 @@
                                          saved as `do T.concat(5);`).
 
   Two renderings of the same tree are given: `unparseExpr` / `unparseProgram` (the bytes the C++ writes) and
-  `toksExpr` / `toksDo` (the token sequence those bytes are meant to scan to). The parser theorems of Proofs/C12.lean are
+  `toksExpr` / `toksDo` / `toksStmt` / `toksProgram` (the token sequence those bytes are meant to scan to). The parser theorems of Proofs/C12.lean are
   stated on `toksExpr`; that `unparseExpr e` scans to `toksExpr e` is checked by evaluation in the driver on
   every case of the correspondence run (`lex=1`); it is not a theorem (see notes/NOTES-C12.md, "left unproved").
 -/
@@ -248,5 +248,79 @@ end
 /-- The token sequence of a DO statement as `Executable::unparse` writes it: the keyword `do` (always
 written by `DOStatement::unparse`), the tokens of the expression, the separator `;`. -/
 def toksDo (e : PExpr) : List Tok := kw "do" :: (toksExpr e ++ [ch 59])
+
+/-! ## The token sequence of an unparsed statement / program (all statement kinds)
+
+`toksBlock p` is what `unparseBlock lvl p` is meant to scan to (indentation and newlines are not tokens, so the
+level does not show). The driver compares it with `tokensOf (unparseProgram p)` on every case (`ptoks=`). -/
+
+def dirToks : PDir → List Tok
+  | .auto => []
+  | .asc => [kw "asc"]
+  | .desc => [kw "desc"]
+
+def paramToks (p : Bytes × Bytes) : List Tok :=
+  if p.2.isEmpty then [⟨cKW, p.1⟩] else [⟨cKW, p.1⟩, ch 58, ⟨cKW, p.2⟩]
+
+mutual
+  /-- tokens of one statement, without the separator `Executable::unparse` adds -/
+  def toksStmt : PStmt → List Tok
+    | .nop => [kw "nop"]
+    | .brk => [kw "break"]
+    | .cont => [kw "continue"]
+    | .trace e => kw "trace" :: toksExpr e
+    | .ret none => [kw "return"]
+    | .ret (some e) => kw "return" :: toksExpr e
+    | .letS n e nx => ⟨cKW, n⟩ :: ch 61 :: (toksExpr e ++ toksNext nx)
+    | .letn n ty nx => ⟨cKW, n⟩ :: ch 58 :: ⟨cKW, ty⟩ :: toksNext nx
+    | .print args => kw "print" :: (toksArgs args).flatten
+    | .put args => kw "put" :: (toksArgs args).flatten
+    | .doS e => kw "do" :: toksExpr e
+    | .raise n => [kw "raise", ⟨cKW, n⟩]
+    | .ifS rules els =>
+      toksRules true rules ++
+      (match els with
+       | some b => kw "else" :: toksBlock b
+       | none => []) ++ [kw "end", kw "if"]
+    | .whileS c body => kw "while" :: (toksExpr c ++ kw "loop" :: (toksBlock body ++ [kw "end", kw "loop"]))
+    | .forS v b e step dir body =>
+      kw "for" :: ⟨cKW, v⟩ :: kw "in" :: (toksExpr b ++ kw "to" :: (toksExpr e ++
+      (match step with
+       | some s => kw "step" :: toksExpr s
+       | none => []) ++ dirToks dir ++ kw "loop" :: (toksBlock body ++ [kw "end", kw "loop"])))
+    | .forall v e dir body =>
+      kw "forall" :: ⟨cKW, v⟩ :: kw "in" :: (toksExpr e ++ dirToks dir ++ kw "loop" :: (toksBlock body ++ [kw "end", kw "loop"]))
+    | .begin body catches =>
+      kw "begin" :: (toksBlock body ++
+      (match catches with
+       | [] => []
+       | _ :: _ => [kw "exception"]) ++ toksCatches catches ++ [kw "end"])
+    | .func n params rt body catches =>
+      kw "function" :: ⟨cKW, n⟩ ::
+      ((if params.isEmpty then [] else ch 40 :: (joinToks (ch 44) (params.map paramToks) ++ [ch 41])) ++
+       kw "return" :: ⟨cKW, rt⟩ :: kw "is" :: kw "begin" :: (toksBlock body ++
+      (match catches with
+       | [] => []
+       | _ :: _ => [kw "exception"]) ++ toksCatches catches ++ [kw "end"]))
+
+  def toksNext : Option PStmt → List Tok
+    | none => []
+    | some s => ch 44 :: toksStmt s
+
+  def toksCatches : List (Bytes × List PStmt) → List Tok
+    | [] => []
+    | (n, b) :: cs => kw "when" :: ⟨cKW, n⟩ :: kw "then" :: (toksBlock b ++ toksCatches cs)
+
+  def toksRules (first : Bool) : List (PExpr × List PStmt) → List Tok
+    | [] => []
+    | (c, b) :: rs => (if first then kw "if" else kw "elsif") :: (toksExpr c ++ kw "then" :: (toksBlock b ++ toksRules false rs))
+
+  /-- every statement followed by the separator `;` -/
+  def toksBlock : List PStmt → List Tok
+    | [] => []
+    | s :: ss => toksStmt s ++ ch 59 :: toksBlock ss
+end
+
+def toksProgram (p : List PStmt) : List Tok := toksBlock p
 
 end BlocV.Unparse
